@@ -36,7 +36,8 @@ def replay(obj):
     try:
         problem, key = asmrun.run_case(case["text"], case.get("big_stack", False), d)
         if problem in (None, "skip"):
-            return asmrun.strip_oracle(case["text"], case.get("big_stack", False), d)
+            return (asmrun.strip_oracle(case["text"], case.get("big_stack", False), d)
+                    or asmrun.disassembly_oracle(case["text"], case.get("big_stack", False), d))
         return problem
     finally:
         shutil.rmtree(d, ignore_errors=True)
